@@ -618,6 +618,9 @@ Proof. destruct o as [v|l|a|a v|a v w]; try discriminate. eauto. Qed.
 Lemma is_entry_inv o : is_entry o = true -> exists a v, o = AEntry a v.
 Proof. destruct o as [v|l|a|a v|a v w]; try discriminate. eauto. Qed.
 
+Lemma is_slice_inv o : is_slice o = true -> exists a v w, o = ASlice a v w.
+Proof. destruct o as [v|l|a|a v|a v w]; try discriminate. eauto. Qed.
+
 Lemma osim_AV tbl ss st v o' : osim tbl ss st (AV v) o' -> exists v', o' = AV v' /\ vsim ss st v v'.
 Proof. intros H. inversion H; subst. eauto. Qed.
 Lemma osim_reg tbl ss st b i o' : osim tbl ss st (AV (VReg b i)) o' -> o' = AV (VReg b i).
@@ -627,6 +630,10 @@ Proof. intros H. inversion H; subst. reflexivity. Qed.
 Lemma osim_addr tbl ss st a o' : osim tbl ss st (AAddr a) o' -> o' = AAddr a.
 Proof. intros H. inversion H; subst. reflexivity. Qed.
 Lemma osim_entry tbl ss st a v o' : osim tbl ss st (AEntry a v) o' -> exists v', o' = AEntry a v' /\ vsim ss st v v'.
+Proof. intros H. inversion H; subst. eauto. Qed.
+
+Lemma osim_slice tbl ss st a v w o' :
+  osim tbl ss st (ASlice a v w) o' -> exists v' w', o' = ASlice a v' w' /\ vsim ss st v v' /\ vsim ss st w w'.
 Proof. intros H. inversion H; subst. eauto. Qed.
 
 Lemma rdv_sim ss st v v' : vsim ss st v v' -> rdv ss v = rdv st v'.
@@ -821,6 +828,14 @@ Proof.
     inv_f2 HF. apply osim_addr in Ho. subst.
     cbn [exec]. rewrite Hm. destruct (zlookup (m_arr (s_mem st)) a0); [|exact I].
     cbn [eres_rel]. split; cbn [s_mem s_regs]; auto.
+  - (* wait_all *)
+    destruct ops as [|e [|? ?]]; try discriminate Hshape.
+    cbn [shape_ok] in Hshape. apply is_slice_inv in Hshape as [a [v [w ->]]].
+    inv_f2 HF. apply osim_slice in Ho as [v' [w' [-> [Hv Hw]]]].
+    cbn [exec]. rewrite (rdv_sim _ _ _ _ Hv), (rdv_sim _ _ _ _ Hw), Hm.
+    destruct (rdv st v'); [|exact I]. destruct (rdv st w'); [|exact I].
+    destruct (zlookup (m_arr (s_mem st)) a) as [l|]; [|exact I].
+    destruct (forallb is_some (py_slice l z z0)); cbn [eres_rel]; [exact He|exact I].
   - (* other *)
     assert (H1 : forall l s, exec Xother l s = EStuck) by (intros [|? ?] ?; reflexivity).
     rewrite !H1. exact I.
